@@ -445,6 +445,8 @@ func runC09(c *Ctx) {
 	c.Rule("C09-D12", "a decoded header owns its storage (shared with C03-D8): pointer fields of the PacketHeader built in parser/json point to a variable of that call, nil or the caller's pointer — not into the parser", 1)
 	headerOwnsItsStorage(c, "C09-D12")
 	c09MapWalkers(c)
+	c09FrameWriters(c)
+	c09ReconstructorOwnsFrames(c)
 	c09PlaceholderSlots(c)
 
 	c.Rule("C09-D4", "placeholder agreement: the JSON keys the encoder writes (struct tags of `placeholder`) are the literals the decoder compares; placeholder numbers are 0-based on the wire and the decoder adds 1 because the encoder prepends the header frame; attachments are counted once each", 8)
